@@ -77,7 +77,11 @@ def widen(draw, node):
     if k == 'tupv':
         opts += ['child', 'toseq']
     if k == 'map':
-        opts += ['mapabc', 'value']
+        # related one-parameter ABCs: by keys (what iterating a mapping yields) and - NOT a widening, a soundness probe - by values
+        opts += ['mapabc', 'value', 'map-to-collection-of-keys', 'map-to-collection-of-values']
+    if k == 'shallow' and node[1] == 'ItemsView[str,int]':
+        # one-parameter ABCs ItemsView subclasses; its elements are (key, value) pairs, so only the last one is a widening
+        opts += ['itemsview-up', 'itemsview-up', 'itemsview-up']
     if k == 'ann':
         opts += ['unann', 'unann']
     if k == 'nt':
@@ -139,6 +143,16 @@ def widen(draw, node):
         return ['map', _MAP_UP.get(node[1], node[1]), node[2], node[3]]
     if m == 'value':
         return ['map', node[1], node[2], draw(widen(node[3]))]
+    if m == 'map-to-collection-of-keys':
+        fam = draw(st.sampled_from([['reit', 'Collection'], ['reit', 'TCollection'], ['quasi', 'Iterable'], ['quasi', 'Container']]))
+        return [fam[0], fam[1], node[2]]
+    if m == 'map-to-collection-of-values':
+        return ['reit', 'Collection', node[3]] if draw(st.booleans()) else ['quasi', 'Iterable', node[3]]
+    if m == 'itemsview-up':
+        child = draw(st.sampled_from([['cls', 'str'], ['cls', 'int'], ['tupf', [['cls', 'str'], ['cls', 'int']], 't']]))
+        fam = draw(st.sampled_from([['reit', 'Collection'], ['reit', 'TCollection'], ['reit', 'AbstractSet'], ['quasi', 'Iterable'],
+                                    ['quasi', 'TIterable']]))
+        return [fam[0], fam[1], child]
     if m == 'unann':
         return node[1]
     if m == 'super':
@@ -181,6 +195,12 @@ def _sanitize(node):
 def _case(draw, tier):
     depth = draw(st.sampled_from([0, 1, 1, 2, 2, 3] + ([4] if tier == 'thorough' else [])))
     a, _n = H.avoid_known_shapes(draw(H.hint_nodes(depth)))
+    if draw(st.integers(0, 9)) == 0:
+        # the non-recursive leaves of the grammar (views, callables, iterators, generators, user generics) are rare as roots of a
+        # recursive draw: one case in ten starts from one of them, bare or inside a list / Optional
+        a = ['shallow', draw(st.sampled_from(sorted(n for n in H.SHALLOW if n != 'Hashable')))]
+        w = draw(st.sampled_from(['bare', 'bare', 'List', 'Optional']))
+        a = {'bare': a, 'List': ['seq', 'List', a], 'Optional': ['union', [a], 'O']}[w]
     if draw(st.integers(0, 4)) == 0:
         b, _n = H.avoid_known_shapes(draw(H.hint_nodes(draw(st.sampled_from([0, 1, 2])))))
         c, _n = H.avoid_known_shapes(draw(H.hint_nodes(draw(st.sampled_from([0, 1])))))
